@@ -580,6 +580,37 @@ def job_c12(args):
         signal.alarm(0)
 
 
+def job_c12_types(args):
+    """directed: array types with every written length (0, 1, 2, 10, none) as struct attribute, task input, call
+    output: the model must carry the length as written"""
+    import vgen
+    import vgen_selftest
+    from pfdl_scheduler.utils.parsing_utils import parse_string
+
+    seed, = args
+    rng = random.Random(seed)
+    lens = ["[0]", "[1]", "[2]", "[10]", "[]", ""]
+    elem = rng.choice(["number", "string", "boolean", "S0"])
+    l1, l2, l3 = rng.choice(lens), rng.choice(lens), rng.choice(lens)
+    prog = {"structs": [{"name": "S0", "attrs": [["k", "number"]]},
+                        {"name": "S", "attrs": [["a", elem + l1], ["b", "number" + rng.choice(lens)]]}],
+            "tasks": [{"name": "productionTask", "ins": [], "outs": [], "body": [
+                {"k": "svc", "name": "Get", "ins": [], "outs": [["x", elem + l2], ["s", "S" + l3]]},
+                {"k": "call", "name": "other", "ins": ["x"], "outs": []}]},
+                {"name": "other", "ins": [["v", elem + l2]], "outs": [], "body": [{"k": "svc", "name": "Use", "ins": ["v"], "outs": []}]}]}
+    text = vgen.print_program(copy.deepcopy(prog), None)
+    buf = io.StringIO()
+    try:
+        with contextlib.redirect_stdout(buf):
+            valid, process = parse_string(text)
+    except Exception as ex:  # noqa: BLE001
+        return {"seed": seed, "text": text, "problem": "raised %s" % type(ex).__name__}
+    if process is None:
+        return {"seed": seed, "text": text, "problem": "syntax error: " + buf.getvalue()[:120]}
+    d = vgen_selftest.first_difference(vgen_selftest.model_canon(process), vgen_selftest.ast_canon(prog))
+    return {"seed": seed, "text": text, "problem": d}
+
+
 ILLEGAL = ["§", "$", "@", "~", "^", "%", "&", "|", "?", "\\", "`", "'", ";", "ä", "€", "\x0b", "\x7f"]
 
 
@@ -844,6 +875,13 @@ def _run_c12(ctx, pool, res):
                 _add(res, seen, prop, "illegal_char_raises", "an inserted %r makes validation raise %s" % (ill["ch"], ill["exc"]), {"text": ill["text"]})
             elif ill.get("valid"):
                 _add(res, seen, prop, "illegal_char_accepted", "text with an inserted character outside the language (%r at offset %d) is accepted silently" % (ill["ch"], ill["pos"]), {"text": ill["text"]})
+    # directed: array lengths as written
+    ntypes = 0
+    for r in pool.map(job_c12_types, [(seed * 13 + i,) for i in range(60 if quick else 600)], chunksize=4):
+        ntypes += 1
+        n_eval += 1
+        if r.get("problem"):
+            _add(res, seen, prop, "model_differs_from_text", "array type written with a length: " + str(r["problem"]), {"text": r["text"]})
     # correspondence with the Lean denter model: same INDENT / DEDENT / NL pattern
     disagreements = []
     if ctx["model_ok"] and denter_reqs:
